@@ -129,6 +129,7 @@ Finished(e) == /\ phase = "live" /\ phase' = "finished"
                /\ UNCHANGED <<simset, supf, started, failedstart, stopcnt, sast, sabeg, stopt0, doomed, sdrun, sdwant>>
 RunRes(e) == /\ phase = "finished"
              /\ e.code = (IF err # 0 THEN err ELSE IF supf # NONE THEN supf ELSE NONE)
+             /\ e.left = 0             \* no task started by run() is pending when it returns
              /\ Same
 ShutRes(e) == /\ phase = "finished" /\ e.code = (IF err = 0 THEN NONE ELSE err) /\ Same
 After(e) == /\ phase = "finished"
